@@ -1,14 +1,14 @@
 --------------------------- MODULE Gen_IntervalPli ---------------------------
 (* (G) behaviour generator for the interval-PLI growth specification: every sequence of L calls/ticks over three SSRCs
-   (after the warm-up prefix selected by Warm), restricted to what the specification enables: BindRTCPWriter at most
+   (after each warm-up prefix in Warms), restricted to what the specification enables: BindRTCPWriter at most
    once, ticks only while the loop runs with an interval, no call that would block for ever (a second forced request
    without a loop).  Each behaviour is one script for harness/pkg/intervalpli; a final Close is appended.
    The generator state follows the harness discipline: while the loop runs, every request is written before the next call
    (the harness drains), so pend is empty between calls. *)
 EXTENDS IntervalPli, Json
-CONSTANTS L, Periodic, Warm
-VARIABLES x, hist
-vars == <<x, hist>>
+CONSTANTS L, Periodic, Warms
+VARIABLES x, hist, n0
+vars == <<x, hist, n0>>
 Cfg == [periodic |-> Periodic]
 
 Pli       == <<[t |-> "nack", p |-> "pli"]>>
@@ -22,18 +22,18 @@ Forces  == {<<>>, <<1>>, <<2, 3>>, <<3, 3, 9>>}
 Ev(a, s, fb, ss) == [a |-> a, s |-> s, fb |-> fb, ss |-> ss]
 Drained(y) == IF y.running THEN [y EXCEPT !.pend = <<>>] ELSE y
 
-WarmSeq == IF Warm = 0 THEN <<>>
-           ELSE IF Warm = 1 THEN <<Ev("bindw", 0, <<>>, <<>>)>>
-           ELSE IF Warm = 2 THEN <<Ev("bindw", 0, <<>>, <<>>), Ev("bind", 1, Pli, <<>>), Ev("bind", 2, Pli, <<>>)>>
-           ELSE <<Ev("bind", 3, Pli, <<>>)>>                       \* a request pending before there is a loop
-WarmState == IF Warm = 0 THEN Fresh
-             ELSE IF Warm = 1 THEN BindWriterStep(Fresh)
-             ELSE IF Warm = 2 THEN Drained(BindRemoteStep(Drained(BindRemoteStep(BindWriterStep(Fresh), 1, Pli)), 2, Pli))
-             ELSE BindRemoteStep(Fresh, 3, Pli)
+WarmSeq(w) == IF w = 0 THEN <<>>
+              ELSE IF w = 1 THEN <<Ev("bindw", 0, <<>>, <<>>)>>
+              ELSE IF w = 2 THEN <<Ev("bindw", 0, <<>>, <<>>), Ev("bind", 1, Pli, <<>>), Ev("bind", 2, Pli, <<>>)>>
+              ELSE <<Ev("bind", 3, Pli, <<>>)>>                    \* a request pending before there is a loop
+WarmState(w) == IF w = 0 THEN Fresh
+                ELSE IF w = 1 THEN BindWriterStep(Fresh)
+                ELSE IF w = 2 THEN Drained(BindRemoteStep(Drained(BindRemoteStep(BindWriterStep(Fresh), 1, Pli)), 2, Pli))
+                ELSE BindRemoteStep(Fresh, 3, Pli)
 
-Init == x = WarmState /\ hist = WarmSeq
-Do(y, e) == x' = Drained(y) /\ hist' = Append(hist, e)
-Next == /\ Len(hist) < Len(WarmSeq) + L
+Init == \E w \in Warms : x = WarmState(w) /\ hist = WarmSeq(w) /\ n0 = Len(WarmSeq(w))
+Do(y, e) == x' = Drained(y) /\ hist' = Append(hist, e) /\ UNCHANGED n0
+Next == /\ Len(hist) < n0 + L
         /\ \/ ~x.started /\ Do(BindWriterStep(x), Ev("bindw", 0, <<>>, <<>>))
            \/ \E b \in Binds : ~(SupportsPli(b[2]) /\ BlocksForever(x)) /\ Do(BindRemoteStep(x, b[1], b[2]), Ev("bind", b[1], b[2], <<>>))
            \/ \E s \in 1 .. 3 : Do(UnbindStep(x, s), Ev("unbind", s, <<>>, <<>>))
@@ -41,8 +41,8 @@ Next == /\ Len(hist) < Len(WarmSeq) + L
            \/ \E ss \in Forces : ~BlocksForever(x) /\ Do(ForceStep(x, ss), Ev("force", 0, <<>>, ss))
            \/ TickEnabled(Cfg, x) /\ Do(x, Ev("tick", 0, <<>>, <<>>))
            \/ Do(CloseStep(x), Ev("close", 0, <<>>, <<>>))
-Leaf == IF Len(hist) = Len(WarmSeq) + L
+Leaf == IF Len(hist) = n0 + L
         THEN PrintT(<<"TRACE", ToJson(Append(hist, Ev("close", 0, <<>>, <<>>)))>>) /\ FALSE
         ELSE TRUE
-LeafInv == Len(hist) = Len(WarmSeq) + L => PrintT(<<"TRACE", ToJson(Append(hist, Ev("close", 0, <<>>, <<>>)))>>)
+LeafInv == Len(hist) = n0 + L => PrintT(<<"TRACE", ToJson(Append(hist, Ev("close", 0, <<>>, <<>>)))>>)
 =============================================================================
